@@ -142,6 +142,9 @@ def c02_2(ctx: Ctx) -> RuleResult:
         if len(mr) != 2 or any(a is None for a in mr):
             raise AnalysisError("solver call does not have (matrix, vector) arguments")
         M, R = mr
+        if M[0] != "sub" or R[0] != "sub":
+            # the two arrays may come out of a private helper that assembles the system (`matrix, vector = _merge(...)`)
+            M, R = X.force_inline(M, f, effects=True), X.force_inline(R, f, effects=True)
         ok = M[0] == "sub" and R[0] == "sub"
         if not ok:
             res.add(f, c, "matrix and right-hand side are row selections", False, f"arguments are `{show(M, 50)}` / `{show(R, 50)}`: NaN rows of failed perturbations enter the solve",
@@ -347,6 +350,9 @@ def c02_5(ctx: Ctx) -> RuleResult:
             from ..callgraph import positional_args
 
             M, R = positional_args(s, t_)[:2]
+            if M is not None and R is not None and (M[0] != "sub" or R[0] != "sub"):
+                # the system assembled by a private helper (`matrix, vector = _merge(...)`): look at the values it returns
+                M, R = X.force_inline(M, g_, effects=True), X.force_inline(R, g_, effects=True)
             fm, fr = _weight_factors(ctx, g_, M), _weight_factors(ctx, g_, R)
             if fm or fr:
                 f = g_
